@@ -673,6 +673,22 @@ def prng_@I@(seed):
     last = random.random()
     return first, picks, deck, last
 ''', 'prng_@I@(@A@ + 7)'),
+    ('thread_census', '''
+def census_worker_@I@(sink, v):
+    sink.append(v * 2)
+
+
+def thread_census_@I@(v):
+    before = set(threading.enumerate())
+    sink = []
+    ts = [threading.Thread(target=census_worker_@I@, args=(sink, v + i)) for i in range(2)]
+    for t in ts:
+        t.start()
+    for t in ts:
+        t.join()
+    extra = sorted(type(t).__name__ for t in threading.enumerate() if t not in before)
+    return sorted(sink), extra
+''', 'thread_census_@I@(@A@)'),
     ('method_exc', '''
 class Acct_@I@:
     def __init__(self, bal):
